@@ -401,6 +401,7 @@ def load(file, **options):
         if row[column_heads.index('ID')].value != frame_id:
             # new Frame
             frame_id = row[column_heads.index('ID')].value
+            signal_name = ""  # the first signal of a frame is new even if it is named like the previous frame's last one
             frame_name = row[column_heads.index('Frame Name')].value
             cycle_time = get_if_possible(row, 'Cycle Time [ms]', '0')
             launch_type = get_if_possible(row, 'Launch Type')
